@@ -20,7 +20,8 @@ func init() {
 		"(R3) in each Reconcile a Get keyed by the request (issued directly or by a helper that always performs it) dominates every API write, and every object handed to an API write is rooted in memory allocated, read or copied during the same invocation (never a package variable or a reconciler field); "+
 		"and three structural necessary conditions of the fault clause: (R4) the pod Create (GenerateName, hence not idempotent) is issued once per creation candidate and never re-issued in the same invocation, so a lost answer cannot yield a second pod; "+
 		"(R5) no error of an API read is swallowed: when a Get/List — or a repository function that forwards such an error — fails, the caller returns an error depending on it, collects it into the sync's error list, or the failure is an IsNotFound (two named exceptions in the status-only settings reconciler), so nothing is planned on a partial view; "+
-		"(R6) the two-step rollback write (status, then spec) is recomputed from scratch on the next reconcile. "+
+		"(R6) the two-step rollback write (status, then spec) is recomputed from scratch on the next reconcile, and the failed mark it depends on is reset only in the active role; "+
+		"(R7) no API write is guarded by a persisted condition of the reconciled replica set that the same invocation resets (such a write would never be retried after one failed attempt). "+
 		"Safety at every intermediate fault point and convergence after faults are histories and are NOT decided.", runC11)
 }
 
